@@ -28,6 +28,11 @@ CLAIMED = {
     text='finder_sound holds for every split of a file into non-empty reads; manifest_hit_sound_partial shows that a manifest hit implies unchanged contents of every recorded header for all option combinations (after the fix of F-C04-a) except headers with time-macro text under default handling (F-C04-b, kernel-checked witness). Both models are replayed against the real TimeMacroFinder / chunked Digest and the real PreprocessorCacheEntry on real files.',
     note='Trusted: Lean kernel, Model/TimeMacro.lean, Model/Manifest.lean (tied by h_c04), kernel ctime monotonicity (theorem hypothesis). Not yet modelled: the include recorder and line-marker scanner (C04 second tier).',
     ref='DESIGN.md section 4 C04, Appendix A.1, B.1, B.11'),
+
+ 'C18': dict(technique='Lean 4 proof (invariant over all message sequences with the allocation handler split at its unlock points; transition-table theorem) + differential correspondence on the real Scheduler through an in-crate driver with nested handler calls + invariant monitor on the private maps',
+    text='scheduler_consistent (attribution, fresh ids, capacity cpus+1+cpus/8, no poisoning, no panicking update) is proved for every message sequence in which any message may occur inside an allocation window, for the handler as repaired by the fix: commit; transitions_only and in_progress_eq for every state. The model is replayed against the real Scheduler (allocation choices acceptance-checked) and the invariants are monitored on its private maps.',
+    note='Trusted: Lean kernel, Model/Sched.lean (tied by hook H6), time frozen (time-outs excluded as in the property). F-C18-a was a genuine defect, repaired by a fix: commit; the pinned behaviour is kept as a kernel-checked witness.',
+    ref='DESIGN.md section 4 C18, Appendix A.4, B.17'),
 }
 NA_REASON = 'not yet wired into ./check in this round (model and theorems exist under lean/; see DESIGN.md section 0.1)'
 def hooks():
